@@ -5,6 +5,7 @@ import (
 	"encoding/json"
 	"fmt"
 	"runtime"
+	"sort"
 	"strings"
 	"sync"
 	"testing"
@@ -26,7 +27,8 @@ type C01Case struct {
 	Latency  []int    `json:"latency"` // handler latency class per call (cycled): 0 none, 1 Gosched, 2..: k*100us
 	IDs      []string `json:"ids"`     // raw layer: compact JSON ids (cycled, made unique per session with a suffix where needed)
 	Real     bool     `json:"real"`
-	Fails    []bool   `json:"fails"` // per call (cycled): the handler fails with an error that embeds the request's nonce
+	Fails    []bool   `json:"fails"`           // per call (cycled): the handler fails with an error that embeds the request's nonce
+	Lists    bool     `json:"lists,omitempty"` // lib layer: every fourth in-flight slot is a tools/list or prompts/list instead of a call
 }
 
 var c01IDPool = []string{`1`, `"1"`, `0`, `""`, `-7`, `2147483648`, `9007199254740991`, `9007199254740992`, `"a"`, `"id-é"`, `"💥"`, `"x y"`, `"%d"`, `"1e3"`, `1000000`, `12345678`, `"null"`, `"true"`}
@@ -60,6 +62,7 @@ func genC01(t *rapid.T) C01Case {
 	for i := 0; i < n; i++ {
 		c.Fails = append(c.Fails, rapid.IntRange(0, 2).Draw(t, "fail") == 2)
 	}
+	c.Lists = rapid.Bool().Draw(t, "lists")
 	if c.Mode == ModeStdio && c.Layer == "lib" {
 		c.Clients = 1 // one child per client; keep the process count down
 		if rapid.Bool().Draw(t, "stdioclients") {
@@ -155,6 +158,7 @@ func execC01Lib(c C01Case) *Failure {
 		err   error
 		n     int
 		fail  bool
+		list  bool
 	}
 	var mu sync.Mutex
 	var results []result
@@ -176,6 +180,36 @@ func execC01Lib(c C01Case) *Failure {
 					defer wg.Done()
 					ctx, cancel := context.WithTimeout(context.Background(), 15*time.Second)
 					defer cancel()
+					if c.Lists && k%4 == 3 {
+						// requests of another kind in flight next to the calls: the list is the server's, never a call's answer
+						r := result{nonce: nonce, list: true}
+						var names []string
+						if (k/4)%2 == 0 {
+							lres, err := lc.C.ListTools(ctx, &mcp.ListToolsRequest{})
+							r.err = err
+							if err == nil {
+								for _, t := range lres.Tools {
+									names = append(names, t.Name)
+								}
+							}
+							r.size = 2
+						} else {
+							lres, err := lc.C.ListPrompts(ctx, &mcp.ListPromptsRequest{})
+							r.err = err
+							if err == nil {
+								for _, p := range lres.Prompts {
+									names = append(names, p.Name)
+								}
+							}
+							r.size = 1
+						}
+						sort.Strings(names)
+						r.text = strings.Join(names, ",")
+						mu.Lock()
+						results = append(results, r)
+						mu.Unlock()
+						return
+					}
 					if !fail && len(nonce)%3 == 0 {
 						// the same property through prompts/get
 						preq := &mcp.GetPromptRequest{}
@@ -217,6 +251,21 @@ func execC01Lib(c C01Case) *Failure {
 	}
 	where := fmt.Sprintf("%s lib clients=%d inflight=%d rounds=%d (max handler concurrency %d)", c.Mode, c.Clients, c.InFlight, c.Rounds, w.MaxFly.Load())
 	for _, r := range results {
+		if r.list {
+			want := map[int]string{2: "__counts,echo", 1: "echo"}[r.size]
+			if r.err != nil {
+				f := Failf("C01/lib/call-failed/"+c.Mode.String(), "%s: list request %s failed while the connection was up: %v", where, r.nonce, r.err)
+				if isTimeoutText(r.err.Error()) {
+					f.Timing = true
+					f.Key = "C01/lib/no-answer/" + c.Mode.String()
+				}
+				return f
+			}
+			if r.text != want {
+				return Failf("C01/lib/foreign-answer/"+c.Mode.String(), "%s: list request %s received [%s], the server's list is [%s]", where, r.nonce, r.text, want)
+			}
+			continue
+		}
 		if r.fail {
 			if r.err == nil {
 				return Failf("C01/lib/foreign-answer/"+c.Mode.String(), "%s: call %s whose handler failed received a result %.80q", where, r.nonce, r.text)
@@ -270,6 +319,9 @@ func execC01Lib(c C01Case) *Failure {
 		w.callMu.Unlock()
 	}
 	for _, r := range results {
+		if r.list {
+			continue
+		}
 		if n := counts["echo:"+r.nonce]; n != 1 {
 			return Failf("C01/lib/handler-runs/"+c.Mode.String(), "%s: the handler ran %d times for request %s", where, n, r.nonce)
 		}
